@@ -5,10 +5,11 @@ pub struct RecordingRng<R> {
     pub inner: R,
     pub log: Vec<u8>,
     pub calls: usize,
+    pub chunks: Vec<Vec<u8>>,
 }
 impl<R> RecordingRng<R> {
     pub fn new(inner: R) -> Self {
-        RecordingRng { inner, log: vec![], calls: 0 }
+        RecordingRng { inner, log: vec![], calls: 0, chunks: vec![] }
     }
 }
 impl<R: RngCore> RngCore for RecordingRng<R> {
@@ -25,6 +26,7 @@ impl<R: RngCore> RngCore for RecordingRng<R> {
     fn fill_bytes(&mut self, d: &mut [u8]) {
         self.inner.fill_bytes(d);
         self.log.extend_from_slice(d);
+        self.chunks.push(d.to_vec());
         self.calls += 1;
     }
     fn try_fill_bytes(&mut self, d: &mut [u8]) -> Result<(), rand_core::Error> {
